@@ -59,6 +59,11 @@ func (m *MDP) DecodeFromBytes(data []byte, df gopacket.DecodeFeedback) error {
 	m.Length = len(data)
 	offset := 28
 	m.PreambleData = data[:offset]
+	// A TLV that is absent from this packet must not keep the value of an earlier packet.
+	m.DeviceInfo, m.NetworkInfo, m.Type6UUID, m.Type7UUID = "", "", "", ""
+	m.Longitude, m.Latitude = 0, 0
+	m.IPAddress = nil
+	m.Type13Bool = false
 
 	for {
 		if offset >= m.Length {
